@@ -287,6 +287,16 @@ def spec_hash(*files):
 # ------------------------------------------------------------------ evidence / findings
 def write_evidence(pid, tier, seed, level, coverage, assumptions, wall_s, violations):
     os.makedirs(EVID, exist_ok=True)
+    # the keys /root/.vp/EVIDENCE.schema.json requires per level (a file that does not validate is no evidence)
+    if level in ("exploration", "fault_enumeration"):
+        need = ("evaluations", "distinct_nontrivial", "rule", "samples")
+    elif level == "model_checking":
+        need = ("states", "transitions", "traces_validated_against_impl", "samples")
+    else:
+        need = ()
+    missing = [k for k in need if k not in coverage or coverage[k] is None]
+    if missing:
+        raise Infra("evidence for %s (%s) lacks %s" % (pid, level, missing))
     doc = {"property_id": pid, "tier": tier, "seed": int(seed), "level": level, "coverage": coverage,
            "assumptions": assumptions, "wall_s": round(wall_s, 2), "violations": int(violations),
            "repo_hash": repo_hash(), "repo": REPO}
